@@ -55,12 +55,14 @@ pub fn worker_main(family: &str) -> i32 {
         let res = std::panic::catch_unwind(std::panic::AssertUnwindSafe(|| fam.run(&case)));
         let ms = t0.elapsed().as_millis() as u64;
         let line = match res {
-            Ok(Outcome { fail, nontrivial, key, rendered }) => {
+            Ok(Outcome { fail, nontrivial, key, mut rendered }) => {
+                // families may attach coverage tags to a case (which model features it exercises)
+                let tags = rendered.as_object_mut().and_then(|o| o.remove("_tags")).unwrap_or(Value::Null);
                 let send_r = fail.is_some() || (nontrivial && samples_left > 0);
                 if fail.is_none() && nontrivial && samples_left > 0 {
                     samples_left -= 1;
                 }
-                json!({"f": fail, "n": nontrivial, "k": key, "r": if send_r { rendered } else { Value::Null }, "ms": ms})
+                json!({"f": fail, "n": nontrivial, "k": key, "r": if send_r { rendered } else { Value::Null }, "ms": ms, "t": tags})
             }
             Err(_) => {
                 let msg = take_panic_message();
@@ -93,6 +95,7 @@ struct Summary {
     nt_keys: HashSet<u64>,
     failures: Vec<Value>,
     groups: std::collections::HashMap<String, u64>,
+    tags: std::collections::BTreeMap<String, u64>,
     samples: Vec<Value>,
     max_ms: u64,
     restarts: u64,
@@ -226,6 +229,13 @@ fn manager(family: String, work: Arc<Mutex<Receiver<(u64, String)>>>, opts: Arc<
                 }
                 if key != 0 {
                     s.keys.insert(key);
+                }
+                if let Some(tags) = v["t"].as_array() {
+                    for tag in tags {
+                        if let Some(tag) = tag.as_str() {
+                            *s.tags.entry(tag.to_owned()).or_insert(0) += 1;
+                        }
+                    }
                 }
                 if nt {
                     s.nontrivial += 1;
@@ -381,6 +391,7 @@ pub fn replay_main(family: &str, rest: &[String]) -> i32 {
         "distinct_nontrivial": s.nt_keys.len(),
         "failures": s.failures,
         "failure_groups": s.groups,
+        "tags": s.tags,
         "samples": s.samples,
         "max_case_ms": s.max_ms,
         "worker_restarts": s.restarts,
